@@ -10,6 +10,7 @@ import (
 	"github.com/cossacklabs/acra/encryptor/base/config"
 	"github.com/cossacklabs/acra/logging"
 	"github.com/cossacklabs/acra/utils"
+	"github.com/jackc/pgx/v5/pgtype"
 )
 
 // PgSQLDataEncoderProcessor implements processor and encode binary/text values before sending to app
@@ -30,8 +31,13 @@ func (p *PgSQLDataEncoderProcessor) OnColumn(ctx context.Context, data []byte) (
 	if len(data) == 0 {
 		// an empty value may be the decoded form of a non-empty encoding (the text format of an empty bytea
 		// is "\x"): give the client what the database sent, not the decoded emptiness
+		// Columns configured with a type other than bytea are presented to the client as that type, where the
+		// empty value is spelled as nothing.
 		if encodedValue, ok := base.GetEncodedValueFromContext(ctx); ok {
-			return ctx, encodedValue, nil
+			setting, hasSetting := encryptor.EncryptionSettingFromContext(ctx)
+			if !hasSetting || setting.GetDBDataTypeID() == 0 || setting.GetDBDataTypeID() == pgtype.ByteaOID {
+				return ctx, encodedValue, nil
+			}
 		}
 		return ctx, data, nil
 	}
